@@ -5,7 +5,9 @@
    have the same style (the empty text is the empty list; Go's nil flag is a
    separate observation).  content t := the concatenated segment texts. *)
 From verif Require Import lib.Base model.C34_width model.C33
-  proofs.C33_proofs proofs.C33_proofs2 proofs.C33_proofs3 proofs.C33_glue.
+  proofs.C33_proofs proofs.C33_proofs2 proofs.C33_proofs3 proofs.C33_glue
+  model.C33_styledown proofs.C33_sd_flat proofs.C33_sd_table proofs.C33_sd_round
+  proofs.C33_sd_main proofs.C33_sd_inst.
 Open Scope Z_scope.
 
 (* The decidable normal form used by the oracle is the proposition Normal. *)
@@ -189,8 +191,78 @@ Theorem C33_segment_rconcat_str_normal : forall lhs sg,
 Proof. exact seg_rconcat_str_normal. Qed.
 Print Assumptions C33_segment_rconcat_str_normal.
 
+(* ------------------------------------------------------------------ *)
+(* Styledown (pkg/ui/styledown; model/C33_styledown.v, on runes).
+   Go naming: derender = Text -> markup (Derender), render = markup -> Text (Render).
+
+   Representable w t  :=  Normal t,  every newline of t lies in a segment with
+   the default style,  every other character has a width other than 0.
+   (That every style has a style character is the success of derender.) *)
+
+(* The round trip, for ANY width function w >= 0 and ANY parseStyleCharDef with
+   the stated contract, any styleDefs, any number of lines and segments, empty
+   lines, with or without a trailing newline: if Derender succeeds on a
+   representable Text, Render of its markup succeeds and gives the same Text. *)
+Theorem C33_styledown_roundtrip :
+  forall (w : N -> Z) (parse_def : list N -> option (N * list styling)),
+  (forall r, 0 <= w r) ->
+  w NL <> 1 ->
+  (forall c ats, lookup c builtin_chars = Some ats -> w c = 1) ->
+  W w no_eol <> 0 ->
+  (forall l c ats, parse_def l = Some (c, ats) -> w c = 1 /\ In c l) ->
+  parse_def no_eol = None ->
+  forall t defs m,
+    Representable w t ->
+    derender w parse_def t defs = Ok m ->
+    render w parse_def m = Ok t.
+Proof. exact styledown_roundtrip. Qed.
+Print Assumptions C33_styledown_roundtrip.
+
+(* ... for the executed instance: the table-driven wcwidth.OfRune and any
+   observed parse table that passes the contract check of the judge *)
+Theorem C33_styledown_roundtrip_wcwidth : forall tbl t defs m,
+  table_wf tbl = true ->
+  Representable of_rune t ->
+  derender of_rune (table_parse tbl) t defs = Ok m ->
+  render of_rune (table_parse tbl) m = Ok t.
+Proof. exact styledown_roundtrip_wcwidth. Qed.
+Print Assumptions C33_styledown_roundtrip_wcwidth.
+
+(* Render on ARBITRARY markup: whenever it succeeds the Text is in normal form
+   (render and derender are total functions of the model: every failure,
+   including a style line that is too short, is the value Err) *)
+Theorem C33_styledown_render_normal :
+  forall (w : N -> Z) (parse_def : list N -> option (N * list styling)) s t,
+  render w parse_def s = Ok t -> Normal t.
+Proof. exact render_normal. Qed.
+Print Assumptions C33_styledown_render_normal.
+
+(* the builder appends styled content character by character, and a normal
+   Text is determined by it (used to conclude equality of Texts) *)
+Theorem C33_normal_flat_injective : forall a b, Normal a -> Normal b -> flat a = flat b -> a = b.
+Proof. exact normal_flat_inj. Qed.
+Print Assumptions C33_normal_flat_injective.
+
+(* SplitByRune('\n') can be undone when the newlines carry the default style *)
+Theorem C33_split_newline_flat : forall t paste,
+  PlainNL t -> fjoin (split_text_go [NL] t paste) = flat (b_result paste) ++ flat t.
+Proof. exact split_text_go_flat. Qed.
+Print Assumptions C33_split_newline_flat.
+
+(* the round-trip oracle is sound *)
+Theorem C33_styledown_oracle_sound : forall t markup back,
+  check_round t markup back = true ->
+  markup = None \/ exists flag, back = BackOk (flag, t) /\ Normal t /\ (t = [] -> flag = true).
+Proof. exact check_round_sound. Qed.
+Print Assumptions C33_styledown_oracle_sound.
+
 (* non-vacuity *)
 From Coq Require Import Strings.String.
+Example C33_styledown_example :
+  let t := [(sBold, [97; 22909]%N); (style0, [10; 98]%N)] in
+  derender of_rune (table_parse []) t [] = Ok [97; 22909; 10; 42; 42; 42; 10; 98; 10; 32; 10; 10; 110; 111; 45; 101; 111; 108; 10]%N
+  /\ render of_rune (table_parse []) [97; 22909; 10; 42; 42; 42; 10; 98; 10; 32; 10; 10; 110; 111; 45; 101; 111; 108; 10]%N = Ok t.
+Proof. exact sd_example. Qed.
 Example C33_oracle_accepts_partition :
   let o := OpPartition [(sBold, hx "6162"%string); (style0, hx "63"%string)] [1; 3] in
   check_C33 o (run_op o) = true.
